@@ -62,10 +62,12 @@ def split_args(s):
 def parse_type(s):
     s = s.strip()
     s = re.sub(r'^const\s+', '', s)
-    m = re.match(r'^(.*)\[(\d+)\]$', s)
+    m = re.match(r'^(.*?)((?:\[\d+\])+)$', s)
     if m and not s.endswith('>'):
-        inner = parse_type(m.group(1))
-        return T('[]', [inner], int(m.group(2)))
+        # `T[a][b]` is an array of a elements of type `T[b]`: the OUTER extent is the first one written
+        exts = re.findall(r'\[(\d+)\]', m.group(2))
+        inner = parse_type(m.group(1) + ''.join('[%s]' % x for x in exts[1:]))
+        return T('[]', [inner], int(exts[0]))
     i = s.find('<')
     if i < 0 or not s.endswith('>'):
         return T(s)
@@ -861,9 +863,14 @@ def write_rules_for(chk, db, fn, k, R, want):
         info['len'] = lenv
         info['count'] = cnt
         if 'LEN' in want:
-            chk.decide(ok and lenv == want_len, R('LEN'), where, '%s: length field %s as %s, documented %s = %r' % (
+            # ... on EVERY successful path: a path that returns success before the length field is written emits a truncated encoding
+            short = [p for p in succ if p is not full and first_len_read(io_view(p)) is None]
+            if short:
+                ok = False
+            chk.decide(ok and lenv == want_len, R('LEN'), where, '%s: length field %s as %s, documented %s = %r%s' % (
                 label, repr(lenv) if lenv is not None else 'missing', first[1] if first else None,
-                'byte count (BIN/STR)' if k.bin else 'element count', want_len), function=flabel)
+                'byte count (BIN/STR)' if k.bin else 'element count', want_len,
+                ('; but the path [%s] reports success without writing the length field' % short[0].describe()[:120]) if short else ''), function=flabel)
         if 'ELT' in want:
             why = []
             body = [it for it in fview if it is not first and it[0] in ('ENC', 'RAW', 'MEMBER', 'PAYLOAD', 'BYTE')]
@@ -1124,6 +1131,9 @@ def size_rules(chk, db, prefix=''):
             size_rules_for(chk, db, fn, k, R, winfo)
         elif k.kind in ('OPTIONAL', 'RESULT', 'VARIANT') and w is not None:
             wrapper_size_rule(chk, db, fn, w, k, R)
+            pf = [g for g in db.fns if g.get('rec') == fn.get('rec') and g['n'] == 'Prefix' and 'body' in g and g.get('_tu') is fn.get('_tu')]
+            if pf and k.kind in ('OPTIONAL', 'RESULT'):
+                wrapper_prefix_rule(chk, db, pf[0], w, k, R)
 
 
 def _value_preds(p):
@@ -1136,6 +1146,35 @@ def _value_preds(p):
         elif 'p:value' in txt and isinstance(c, Cmp):
             out[repr(c.p)] = (c.op, sense)
     return out
+
+
+def wrapper_prefix_rule(chk, db, fn, w, k, R):
+    """sum types: in every state of the value the prefix is the contained value's own prefix exactly when the writer goes on to
+    emit the contained value's payload (and a constant marker otherwise).  States are matched as in wrapper_size_rule."""
+    label = 'Encoding<%s>::Prefix' % short_t(fn['recargs'][0])
+    where = site(fn, '<%s>' % short_t(fn['recargs'][0]))
+    try:
+        ppaths = paths_of(db, fn)
+        wpaths = [p for p in paths_of(db, w) if is_success(p)]
+    except symx.Unsupported as e:
+        chk.unanalysable(R('SZ'), where, 'cannot summarise %s: %s' % (label, e))
+        return
+    why = []
+    for pp in ppaths:
+        delegated = any(e.kind == 'call' and e.name == 'Prefix' for e in pp.events)
+        ppred = _value_preds(pp)
+        for wp in wpaths:
+            wpred = _value_preds(wp)
+            if any(kk in ppred and ppred[kk] != vv for kk, vv in wpred.items()):
+                continue
+            payload = any(it[0] == 'PAYLOAD' for it in io_view(wp))
+            if delegated != payload:
+                why.append('in the state %s the prefix is %s but the writer %s' % (
+                    sorted('%s=%s' % (a.replace('p:value.', ''), b) for a, b in {**wpred, **ppred}.items())[:3],
+                    'the contained value\'s own prefix' if delegated else 'a constant marker',
+                    'emits the contained value\'s payload' if payload else 'does not emit a contained value'))
+    chk.decide(not why, R('SZ'), where + ' prefix', '%s: %s' % (label, '; '.join(sorted(set(why))[:2]) if why else
+               'in every state of the value the prefix announces what the writer emits'), function=ir.fn_label(fn))
 
 
 def wrapper_size_rule(chk, db, fn, w, k, R):
